@@ -191,7 +191,7 @@ class ExecutorBase:
             c = z3.And(Val.is_VRef(term), RID(term) >= 0, RID(term) < st.alloc)
             if n in ("list", "tuple"):
                 st.assume(z3.Implies(Val.is_VRef(term), H.list_len(st, RID(term)) >= 0))
-            if n == "list" and ty.args and _depth < 1:
+            if n == "list" and ty.args and _depth < 1 and not type(st).qf_mode:
                 # container typing: every element satisfies the element type (A-TYPES, re-assumed at each read)
                 j = z3.Int("ty!j")
                 el = z3.Select(st.read("$items", RID(term)), j)
@@ -199,7 +199,7 @@ class ExecutorBase:
                 if not z3.is_true(ep):
                     st.assume(z3.Implies(Val.is_VRef(term),
                                          _forall_pat([j], z3.Implies(z3.And(0 <= j, j < H.list_len(st, RID(term))), ep), el)))
-            if n == "dict" and len(ty.args) == 2 and _depth < 1:
+            if n == "dict" and len(ty.args) == 2 and _depth < 1 and not type(st).qf_mode:
                 k = z3.Const("ty!k", Val)
                 el = z3.Select(st.read("$dval", RID(term)), k)
                 ep = z3.And(self.type_pred(el, ty.args[1], fr, _depth + 1), self.type_pred(k, ty.args[0], fr, _depth + 1))
